@@ -1,1 +1,35 @@
-From NB Require Import Schema.Schema Gen.NbSchemas.
+(* C09 -- merge decisions follow the published schema and are ordered deeper-first.  Statements only; proofs are in
+   Merge/SortKeyOrder.v (over the decision / sort-key model of Merge/Decisions.v, Merge/SortKey.v). *)
+From Coq Require Import List NArith ZArith.
+From NB Require Import Base.Json Diff.DiffFormat Merge.SortKey Merge.Decisions Merge.SortKeyOrder Gen.Actions Gen.NbSchemas.
+Import ListNotations.
+
+(* ordering clause, for the list MergeDecisionBuilder.validated() returns: a decision is never preceded by a decision
+   on a strict prefix of its path *)
+Theorem order_deeper_first : forall (B : builder) a x b y c,
+  validated B = a ++ x :: b ++ y :: c -> ~ strict_prefix (d_path x) (d_path y).
+Proof. exact (fun B => order_deeper_first_gen d_path (map drop_strategy B)). Qed.
+Print Assumptions order_deeper_first.
+
+(* validated() only reorders (and drops the internal strategy field): nothing lost, nothing invented *)
+Theorem validated_same_decisions : forall (B : builder) d, In d (validated B) <-> In d (map drop_strategy B).
+Proof. exact (fun B d => sort_desc_In (fun d => sort_key (d_path d)) (map drop_strategy B) d). Qed.
+Print Assumptions validated_same_decisions.
+
+(* the two translators that read the schema's action enum agree *)
+Theorem enum_translators_agree : subset schema_actions merge_action_enum = true /\ subset merge_action_enum schema_actions = true.
+Proof. exact SortKeyOrder.enum_translators_agree. Qed.
+Print Assumptions enum_translators_agree.
+
+(* ==== BLOCK A: the pinned schema (take_max missing from the enum).  Stops type-checking when notes/C09-fix-1.diff is
+   applied; then delete BLOCK A, uncomment BLOCK B and remove the entry from known_findings.d/C09.json. ==== *)
+Theorem emitted_subset_schema_refuted : exists a, mem a py_emitted = true /\ mem a schema_actions = false.
+Proof. exact (ex_intro _ s_take_max emitted_not_subset_schema). Qed.
+Print Assumptions emitted_subset_schema_refuted.
+
+Theorem emitted_subset_schema_but_take_max : subset py_emitted (s_take_max :: schema_actions) = true.
+Proof. exact SortKeyOrder.emitted_subset_schema_but_take_max. Qed.
+Print Assumptions emitted_subset_schema_but_take_max.
+(* ==== end of BLOCK A ==== *)
+
+(* BLOCK B (the positive theorems that take over after the fix) is kept ready to paste in notes/C09-blockB.v *)
